@@ -89,6 +89,18 @@ def cases(spec, ctx):
         qa = max(0, a - rng.choice([0, 1, rng.randrange(0, 1 << 12), rng.randrange(0, 1 << 20)]))
         qb = a + ln + rng.choice([0, 1, rng.randrange(0, 1 << 12), rng.randrange(0, 1 << 20)])
         yield {"kind": "random", "i": [a, a + ln], "q": [qa, qb]}
+    # (c2) wide queries (2^21 .. 2^28 bases) around a small interval that straddles a 2^17 / 2^20 / 2^23 / 2^26 boundary deep inside
+    # the query: the interval's bin lives on a level whose interior bins the query's bin set has to enumerate completely
+    for _ in range(nrand // 2):
+        lvl = rng.choice([17, 17, 20, 23, 26])
+        width = 1 << rng.randint(21, 28)
+        b = (rng.randrange(1, ((1 << 29) - 1) >> lvl)) << lvl      # a boundary of that level
+        a = b - rng.choice([1, 2, 50, 5000])
+        e2 = b + rng.choice([1, 2, 50, 5000])
+        left = rng.randrange(1, width)
+        qa = max(1, a - left)
+        qb = min((1 << 29) - 1, e2 + (width - left))
+        yield {"kind": "random", "i": [a, e2], "q": [qa, qb]}
     if i == 0:
         for s, e in [(-5, 10), (-1, 0), (5, -1), (1 << 29, (1 << 29) + 10), ((1 << 29) - 1, 1 << 29), (0, 1 << 29),
                      ((1 << 30), (1 << 30) + 1), (-10, -5)]:
